@@ -294,3 +294,17 @@ pub fn log_call(s: String) {
 pub fn take_call_log() -> Vec<String> {
     CALL_LOG.with(|l| std::mem::take(&mut *l.borrow_mut()))
 }
+
+// ---------------------------------------------------------------------
+// oracle failures noticed in helper code that has no run to attach them to
+// (queries that panic, ...); the drivers drain them after every event
+
+thread_local! {
+    static DEFERRED: RefCell<Vec<(&'static str, &'static str, String)>> = const { RefCell::new(Vec::new()) };
+}
+pub fn defer_viol(prop: &'static str, oracle: &'static str, detail: String) {
+    DEFERRED.with(|d| d.borrow_mut().push((prop, oracle, detail)));
+}
+pub fn take_deferred() -> Vec<(&'static str, &'static str, String)> {
+    DEFERRED.with(|d| std::mem::take(&mut *d.borrow_mut()))
+}
